@@ -517,7 +517,7 @@ func (s *vhPStore) Execute(ctx context.Context, er *command.ExecuteRequest) ([]*
 	if err := s.result(); err != nil {
 		return nil, 0, err
 	}
-	return []*command.ExecuteQueryResponse{{}}, 11, nil
+	return vhResults(), 11, nil
 }
 
 func (s *vhPStore) Query(ctx context.Context, qr *command.QueryRequest) ([]*command.QueryRows, command.ConsistencyLevel, uint64, error) {
@@ -526,6 +526,11 @@ func (s *vhPStore) Query(ctx context.Context, qr *command.QueryRequest) ([]*comm
 		return nil, 0, 0, err
 	}
 	return vhRows(), 0, 12, nil
+}
+
+// vhResults: what the database answers to a write.
+func vhResults() []*command.ExecuteQueryResponse {
+	return []*command.ExecuteQueryResponse{{Result: &command.ExecuteQueryResponse_E{E: &command.ExecuteResult{LastInsertId: 4711, RowsAffected: 1}}}}
 }
 
 // vhRows: what the database answers to a query (for /readyz: one row with the integer 1).
@@ -542,7 +547,7 @@ func (s *vhPStore) Request(ctx context.Context, eqr *command.ExecuteQueryRequest
 	if err := s.result(); err != nil {
 		return nil, 0, 0, err
 	}
-	return []*command.ExecuteQueryResponse{{}}, 1, 13, nil
+	return vhResults(), 1, 13, nil
 }
 
 func (s *vhPStore) Load(ctx context.Context, lr *command.LoadRequest) error {
@@ -598,7 +603,7 @@ func (c *vhPCluster) Execute(ctx context.Context, er *command.ExecuteRequest, no
 	if err := c.fwd("fwd.Execute", vhFirstSQL(er.GetRequest()), "", creds); err != nil {
 		return nil, 0, err
 	}
-	return []*command.ExecuteQueryResponse{{}}, 21, nil
+	return vhResults(), 21, nil
 }
 
 func (c *vhPCluster) Query(ctx context.Context, qr *command.QueryRequest, nodeAddr string, creds *clstrPB.Credentials, timeout time.Duration, retries int) ([]*command.QueryRows, uint64, error) {
@@ -612,7 +617,7 @@ func (c *vhPCluster) Request(ctx context.Context, eqr *command.ExecuteQueryReque
 	if err := c.fwd("fwd.Request", vhFirstSQL(eqr.GetRequest()), "", creds); err != nil {
 		return nil, 0, 0, err
 	}
-	return []*command.ExecuteQueryResponse{{}}, 1, 23, nil
+	return vhResults(), 1, 23, nil
 }
 
 func (c *vhPCluster) Backup(ctx context.Context, br *command.BackupRequest, nodeAddr string, creds *clstrPB.Credentials, timeout time.Duration, w io.Writer) error {
@@ -829,8 +834,14 @@ func (w *vhWorld) judge(q *vhReq, panicked bool) {
 
 	// 3. the reply
 	if !w.authorized(q, ep, len(w.evs)) {
-		verifAssert("C18-refusal-status", vhRefusalStatus(status))
-		verifAssert("C18-refusal-discloses-nothing", vhLooksLikeRefusal(body))
+		if w.refusedBefore(len(w.evs)) {
+			verifAssert("C18-refusal-status", vhRefusalStatus(status))
+			verifAssert("C18-refusal-discloses-nothing", vhLooksLikeRefusal(body))
+		} else {
+			// turned away before any permission was looked at (e.g. a method the endpoint does not have)
+			verifAssert("C18-unchecked-request-fails", status >= 400)
+			verifAssert("C18-unchecked-request-discloses-nothing", len(body) <= 64)
+		}
 		verifAssert("C18-refusal-names-no-other-node", location == "" && w.rw.hdr.Get(ServedByHTTPHeader) == "")
 		verifAssert("C18-refused-request-does-nothing", calls == 0 && queued == 0)
 		verifReach("refused")
@@ -839,8 +850,13 @@ func (w *vhWorld) judge(q *vhReq, panicked bool) {
 	remoteRefused := w.env.db == 1 && w.env.fwd == 1 && w.count("fwd.Execute")+w.count("fwd.Query")+w.count("fwd.Request")+w.count("fwd.Backup")+w.count("fwd.Load")+w.count("fwd.Remove")+w.count("fwd.Stepdown") > 0
 	if remoteRefused {
 		// the leader refused the forwarded credentials
-		verifAssert("C18-remote-refusal-status", vhRefusalStatus(status))
-		verifAssert("C18-remote-refusal-discloses-nothing", vhLooksLikeRefusal(body))
+		if q.path.ep == vhEpReadyz {
+			// the node's own probe query was refused by the leader: the node is "not ready"
+			verifAssert("C18-remote-refusal-status", status >= 400)
+		} else {
+			verifAssert("C18-remote-refusal-status", vhRefusalStatus(status))
+			verifAssert("C18-remote-refusal-discloses-nothing", vhLooksLikeRefusal(body))
+		}
 		verifReach("refused-by-leader")
 	} else {
 		verifAssert("C18-authorized-request-is-not-refused", !vhRefusalStatus(status))
@@ -874,9 +890,15 @@ func (w *vhWorld) judge(q *vhReq, panicked bool) {
 	// 5. an authorized, well-formed request is carried out
 	if q.canonical {
 		verifAssert("C18-authorized-request-succeeds", status/100 == 2)
-		if ep.want != "" {
+		if strings.Contains(q.query, "queue") {
+			verifAssert("C18-authorized-request-is-carried-out", queued == 1)
+			verifReach("queued")
+		} else if q.path.ep == vhEpLoad && q.sql != "" {
+			verifAssert("C18-authorized-request-is-carried-out", w.count("db.Execute") == 1) // SQL text is executed
+		} else if ep.want != "" {
 			verifAssert("C18-authorized-request-is-carried-out", w.count(ep.want) == 1)
-		} else if q.path.ep != vhEpLeader {
+		} else if q.path.ep != vhEpLeader && q.path.ep != vhEpLicenses {
+			// (a stepdown has no reply body; the licence text is an embedded file, empty in the symbolic run)
 			verifAssert("C18-authorized-request-is-answered", len(body) > 0)
 		}
 		verifReach("carried-out")
@@ -910,8 +932,14 @@ func VerifC18bRoutes() {
 		q.query = "seconds=1"
 	}
 	q.canonical = vhCanonical(q, &vhEndpoints[q.path.ep])
-	if q.path.ep == vhEpSQL && q.method == "GET" {
-		q.canonical = false // needs ?q=
+	if q.method == "GET" {
+		// the statement of a GET travels in the query string (none here)
+		if q.path.ep == vhEpSQL {
+			q.canonical = false // needs ?q=
+		}
+		if q.path.ep == vhEpQuery {
+			q.sql = ""
+		}
 	}
 	s, w := vhNewWorld(vhEnv{})
 	r := q.build()
@@ -1087,12 +1115,3 @@ func vhParseStatement(p *rsql.Parser) (rsql.Statement, error) {
 func vhPprof(w http.ResponseWriter, r *http.Request) { w.Write([]byte("pprof: process internals")) }
 
 func vhExpvarDo(f func(expvar.KeyValue)) {}
-
-func VerifC18bDbg() {
-	q := &vhReq{path: vhPaths[25+verifChoice("p", 16)], method: "GET", cred: 0}
-	vhBodyFor(q, q.path.ep, false)
-	s, w := vhNewWorld(vhEnv{})
-	r := q.build()
-	w.judge(q, vhServe(s, w, r))
-	verifAssert("dbg-evs", len(w.evs) != 0)
-}
